@@ -221,3 +221,37 @@ pub(crate) fn emit(event: Event) {
         sink(&event)
     }
 }
+
+/// Source of "serial ports" for the RTU client and server tasks, in place of opening a device
+pub trait PortOpener: Send + Sync + 'static {
+    /// one attempt to open the port
+    fn open(&self, path: &str) -> std::io::Result<Box<dyn VerifIo>>;
+}
+
+static PORT_OPENER: std::sync::Mutex<Option<Arc<dyn PortOpener>>> = std::sync::Mutex::new(None);
+
+/// Install (or remove) the opener used by the RTU tasks instead of the operating system
+pub fn install_port_opener(opener: Option<Arc<dyn PortOpener>>) {
+    *PORT_OPENER.lock().unwrap_or_else(|e| e.into_inner()) = opener;
+}
+
+/// What `serial::open` yields with the hooks compiled in: a real port, or a stream from the installed opener
+#[cfg(feature = "serial")]
+pub(crate) enum MaybeSerial {
+    Real(tokio_serial::SerialStream),
+    Verif(Box<dyn VerifIo>),
+}
+
+#[cfg(feature = "serial")]
+pub(crate) fn open_port(path: &str) -> Option<tokio_serial::Result<MaybeSerial>> {
+    let opener = PORT_OPENER
+        .lock()
+        .unwrap_or_else(|e| e.into_inner())
+        .clone()?;
+    Some(
+        opener
+            .open(path)
+            .map(MaybeSerial::Verif)
+            .map_err(|err| tokio_serial::Error::new(tokio_serial::ErrorKind::Io(err.kind()), err.to_string())),
+    )
+}
